@@ -32,6 +32,7 @@ import (
 //
 //   c15 open <c> <fresh|garbage|failing|nostop|noout>      connect, send the first message
 //   c15 csend <c> <fresh|reuse<j>|garbage|failing|nostop|noout>   a further client message
+//                             panics|panicerr|panicidx: the handler panics (string, error value, runtime error);
 //                             nostop: the handler hands back a new channel and a nil stop channel;
 //                             noout: it hands back a nil channel (and a stop channel, no error)
 //   c15 wstart <c> <n>        wait until the handler was invoked more than n times for <c>
@@ -79,6 +80,20 @@ type C15Req struct {
 	// NoStop: a new channel, but no stop channel; NoOut: no channel at all (nil), with a stop channel
 	NoStop bool
 	NoOut  bool
+	// Panic: the handler panics on this request — 1: with a string, 2: with an error value,
+	// 3: with a runtime error (index out of range)
+	Panic int64
+}
+
+// C15ReqOfAStreamingEndpointWhoseMessageTypeHasAnUnusuallyLongNameAsGeneratedCodeSometimesProducesThemForNestedMessages is the same request under a type name of 117 characters (the path of
+// a websocket endpoint is the name of its message type): connections named l... use it.
+type C15ReqOfAStreamingEndpointWhoseMessageTypeHasAnUnusuallyLongNameAsGeneratedCodeSometimesProducesThemForNestedMessages C15Req
+
+const c15LongPath = "C15ReqOfAStreamingEndpointWhoseMessageTypeHasAnUnusuallyLongNameAsGeneratedCodeSometimesProducesThemForNestedMessages"
+
+func (s *c15Service) streamLong(m *C15ReqOfAStreamingEndpointWhoseMessageTypeHasAnUnusuallyLongNameAsGeneratedCodeSometimesProducesThemForNestedMessages) (chan *C15Val, chan bool, error) {
+	r := C15Req(*m)
+	return s.stream(&r)
 }
 
 // C15Val is what the service streams.
@@ -143,6 +158,15 @@ func (s *c15Service) stream(m *C15Req) (chan *C15Val, chan bool, error) {
 	if m.Fail {
 		return nil, nil, errors.New("refused")
 	}
+	switch m.Panic {
+	case 1:
+		panic("c15: the streaming handler panics")
+	case 2:
+		panic(errors.New("c15: the streaming handler panics with an error value"))
+	case 3:
+		var topics []int
+		_ = topics[int(m.Panic)] // index out of range: a runtime.Error
+	}
 	if m.Reuse >= 0 && int(m.Reuse) < len(c.streams) {
 		st := c.streams[m.Reuse]
 		return st.ch, st.stop, nil
@@ -180,7 +204,7 @@ func c15Register() {
 	c15RegisterOnce.Do(func() {
 		_, err := onet.RegisterNewService(c15ServiceName, func(c *onet.Context) (onet.Service, error) {
 			s := &c15Service{ServiceProcessor: onet.NewServiceProcessor(c)}
-			if err := s.RegisterStreamingHandlers(s.stream); err != nil {
+			if err := s.RegisterStreamingHandlers(s.stream, s.streamLong); err != nil {
 				return nil, err
 			}
 			if err := s.RegisterHandler(s.ping); err != nil {
@@ -283,6 +307,9 @@ func c15msg(conn, m string) ([]byte, bool) {
 	case m == "nostop":
 		b, err := protobuf.Encode(&C15Req{Conn: string(c15tag(conn)), Reuse: -1, NoStop: true})
 		return b, err == nil
+	case m == "panics" || m == "panicerr" || m == "panicidx":
+		b, err := protobuf.Encode(&C15Req{Conn: string(c15tag(conn)), Reuse: -1, Panic: c15panicKind[m]})
+		return b, err == nil
 	case m == "noout":
 		b, err := protobuf.Encode(&C15Req{Conn: string(c15tag(conn)), Reuse: -1, NoOut: true})
 		return b, err == nil
@@ -299,8 +326,12 @@ func c15msg(conn, m string) ([]byte, bool) {
 	return nil, false
 }
 
+var c15panicKind = map[string]int64{"panics": 1, "panicerr": 2, "panicidx": 3}
+
 func c15req(conn, m string) (*C15Req, bool) {
 	switch {
+	case m == "panics" || m == "panicerr" || m == "panicidx":
+		return &C15Req{Conn: string(c15tag(conn)), Reuse: -1, Panic: c15panicKind[m]}, true
 	case m == "fresh":
 		return &C15Req{Conn: string(c15tag(conn)), Reuse: -1}, true
 	case m == "failing":
@@ -363,6 +394,9 @@ func (e *c15env) open(name, m string) string {
 		return e.openOnet(name, m)
 	}
 	path := "C15Req"
+	if strings.HasPrefix(name, "l") {
+		path = c15LongPath
+	}
 	if m == "unregistered" {
 		path, m = "C15Nope", "fresh"
 	}
@@ -790,6 +824,7 @@ func c15oracle(cs *h.Case) {
 		emitted  map[int][]int
 		received map[int][]int
 		bad      bool // the client sent a message that does not decode / fails
+		unreg    bool // the path is not registered: the error close is the answer
 		gone     bool
 		closed   string
 		held     bool
@@ -840,9 +875,12 @@ func c15oracle(cs *h.Case) {
 		blockedOK := strings.HasPrefix(cs.Class, "corpus:blocked-emit") && tk[1] == "emit" && c.held
 		switch tk[1] {
 		case "open", "csend":
-			if tk[3] == "garbage" || tk[3] == "failing" || tk[3] == "noout" {
+			if tk[3] == "garbage" || tk[3] == "failing" || tk[3] == "noout" || c15panicKind[tk[3]] != 0 {
 				// (a handler that hands back no channel ends the stream like a failing one)
 				c.bad = true
+			}
+			if tk[3] == "unregistered" {
+				c.unreg = true
 			}
 		case "hold":
 			c.held = true
@@ -890,6 +928,12 @@ func c15oracle(cs *h.Case) {
 				}
 			case len(oc) == 2 && oc[0] == "close":
 				c.closed = oc[1]
+				if oc[1] != "1000" && !c.gone && !c.unreg {
+					// a client that is still there is never sent anything but the normal close
+					// (Props/C15.lean: Inv3.cnN, c15_service_ends_stream): an error close needs a
+					// failed read or write, 1006 means no close frame arrived at all
+					cs.Fail("c15:abnormal-close", fmt.Sprintf("op %d: the stream of client %s, which is still connected, ended with close %s instead of the normal close 1000", i, tk[2], oc[1]))
+				}
 				if oc[1] == "1000" && !c.bad && !c.gone {
 					for k, em := range c.emitted {
 						if len(c.received[k]) != len(em) {
@@ -988,7 +1032,7 @@ func (g *c15g) badMessage(c string, p int, what string, more int) []string {
 	ops = append(ops, "c15 csend "+c+" "+what, "c15 wstop "+c+" 0")
 	for i := 0; i < more; i++ {
 		// further client messages after the bad one are drained
-		ops = append(ops, "c15 csend "+c+" "+[]string{"fresh", "garbage", "failing"}[g.c.Rng.Intn(3)])
+		ops = append(ops, "c15 csend "+c+" "+[]string{"fresh", "garbage", "failing", "panics", "panicidx"}[g.c.Rng.Intn(5)])
 	}
 	return append(ops, "c15 svcclose "+c+" 0", "c15 cread "+c)
 }
@@ -1296,11 +1340,27 @@ func (g *c15g) interleave(lists [][]string) []string {
 	}
 }
 
+// what ends a stream like a failing handler (noout last: only where a channel index is not needed afterwards)
+var c15bads = []string{"garbage", "failing", "panics", "panicerr", "panicidx", "noout"}
+
 func c15genCases(c *h.Ctx, yield func(*h.Case)) {
 	g := &c15g{c: c}
 	r := c.Rng
+	// wall-clock budget of the generator: on a loaded machine the random tail is cut, so that a run
+	// (and the widened search of a check, which runs the thorough tier twice) ends in bounded time;
+	// the corpus and the systematic classes come first
+	start := time.Now()
+	budget := time.Duration(c.Pick(70, 240)) * time.Second
+	cut := false
 	emit := func(class string, ops []string) {
 		if c.TooManyFails() {
+			return
+		}
+		if time.Since(start) > budget {
+			if !cut {
+				cut = true
+				c.Count("generator-budget-reached")
+			}
 			return
 		}
 		cs := &h.Case{Class: class, Ops: append(ops, "c15 alive")}
@@ -1351,6 +1411,13 @@ func c15genCases(c *h.Ctx, yield func(*h.Case)) {
 	emit("corpus:onet-client", g.onetClient("n0", 2, 1, false, true))
 	emit("corpus:unregistered-path", append(g.badFirst("s0", "unregistered"), "c15 ping 5"))
 	// round 5 (notes/probes/onet_c15_nil_channels_probe_test.go.txt): nil channels handed back by the handler
+	// seed C15r5-A: a streaming handler that panics (first request; a later request while another connection streams)
+	emit("corpus:streaming-handler-panics", append(g.badFirst("s0", "panicidx"), "c15 census"))
+	emit("corpus:streaming-handler-panics", g.badMessage("s0", 2, "panics", 1))
+	emit("corpus:streaming-handler-panics", g.interleave([][]string{g.happy("s1", 3, 1), g.badMessage("s0", 1, "panicerr", 0)}))
+	// seed C15r5-B: a message type (= path) with a very long name; the close frame must still be the normal one
+	emit("corpus:long-path", g.happy("l0", 2, 1))
+	emit("corpus:long-path", g.silentClient("l0", 1, 1, false, "", true))
 	emit("corpus:nil-stop-channel", g.nilStop("s0", 1, 1, 0, "service", true))
 	emit("corpus:nil-stop-channel", g.nilStop("s0", 2, 2, 1, "drop", true))
 	emit("corpus:nil-stop-channel", g.nilStop("s0", 1, 1, 2, "garbage", true))
@@ -1367,7 +1434,7 @@ func c15genCases(c *h.Ctx, yield func(*h.Case)) {
 				continue
 			}
 			emit("client-leaves", g.clientLeaves("s0", p, r.Intn(3), how(), r.Intn(4) == 0))
-			emit("bad-message", g.badMessage("s0", p, []string{"garbage", "failing"}[r.Intn(2)], r.Intn(3)))
+			emit("bad-message", g.badMessage("s0", p, c15bads[r.Intn(len(c15bads))], r.Intn(3)))
 		}
 	}
 	emit("happy-long", g.happy("s0", c.Pick(150, 400), 150))
@@ -1376,7 +1443,7 @@ func c15genCases(c *h.Ctx, yield func(*h.Case)) {
 		emit("two-streams", g.twoStreams("s0", r.Intn(5), r.Intn(5), r.Intn(2), r.Intn(4)))
 		emit("reuse", g.reuse("s0", r.Intn(10), 1+r.Intn(4)))
 		emit("revisit", g.revisit("s0", 1+r.Intn(4), 1+r.Intn(5)))
-		emit("reader-race", g.readerRace("s0", r.Intn(4), []string{"fresh", "garbage", "failing", "reuse0"}[r.Intn(4)]))
+		emit("reader-race", g.readerRace("s0", r.Intn(4), []string{"fresh", "garbage", "failing", "reuse0", "panics", "panicidx"}[r.Intn(6)]))
 		emit("adapter-race", g.adapterRace("s0", r.Intn(4)))
 		emit("forwarder-race", g.forwarderRace("s0", r.Intn(4), how()))
 		if it%5 == 0 {
@@ -1384,7 +1451,10 @@ func c15genCases(c *h.Ctx, yield func(*h.Case)) {
 			emit("inputs-overflow", g.inputsOverflow("s0", r.Intn(3), 11+r.Intn(12), how()))
 			emit("flood-after-leave", g.floodAfterLeave("s0", r.Intn(3), 105+r.Intn(60), how()))
 		}
-		emit("bad-first", g.badFirst("s0", []string{"garbage", "failing", "unregistered"}[r.Intn(3)]))
+		emit("bad-first", g.badFirst("s0", []string{"garbage", "failing", "unregistered", "panics", "panicerr", "panicidx"}[r.Intn(6)]))
+		if it%3 == 1 {
+			emit("long-path", g.happy("l0", r.Intn(6), 1+r.Intn(3)))
+		}
 		if it%2 == 0 {
 			emit("nil-stop", g.withPings(g.nilStop("s0", r.Intn(5), 1+r.Intn(3), r.Intn(3),
 				[]string{"service", "service", "close", "drop", "garbage", "failing", "noout"}[r.Intn(7)], true), r.Intn(2)))
@@ -1409,13 +1479,13 @@ func c15genCases(c *h.Ctx, yield func(*h.Case)) {
 			case 1:
 				lists = append(lists, g.clientLeaves(n, r.Intn(5), r.Intn(3), how(), r.Intn(4) == 0))
 			case 2:
-				lists = append(lists, g.badMessage(n, r.Intn(5), []string{"garbage", "failing"}[r.Intn(2)], r.Intn(2)))
+				lists = append(lists, g.badMessage(n, r.Intn(5), c15bads[r.Intn(len(c15bads)-1)], r.Intn(2)))
 			case 3:
 				lists = append(lists, g.twoStreams(n, r.Intn(4), r.Intn(4), r.Intn(2), r.Intn(3)))
 			case 4:
 				lists = append(lists, g.reuse(n, r.Intn(6), 1+r.Intn(3)))
 			case 5:
-				lists = append(lists, g.badFirst(n, []string{"garbage", "failing"}[r.Intn(2)]))
+				lists = append(lists, g.badFirst(n, c15bads[r.Intn(len(c15bads)-1)]))
 			}
 		}
 		switch r.Intn(4) {
